@@ -297,6 +297,13 @@ def run(ctx, load):
     ctx.floor('C20.closed-guard', 18)
     ctx.floor('C20.delegation', 30)
     ctx.floor('C20.close-once', 8)
+    # text written to a File with print_to is read back with scan_from: every literal of the format — blanks too, which %c, %[ and a quoted
+    # String do not skip — is matched against the input, and every conversion goes through the File's format_from (shared with C15 / C14)
+    from . import rules_c15, rules_c14
+    Ps = load(rules_c15.UNITS, 'default')
+    ctx.config = 'default'
+    ctx.borrow('C20.formatted-read-back', 8, lambda: rules_c15.check_scan(Ps, ctx))
+    ctx.borrow('C20.formatted-write', 8, lambda: rules_c14.check_print(Ps, ctx))
 
 
 EXPLANATION = (
